@@ -36,6 +36,9 @@ CONSTANTS
     Installs,      \* subset of BOOLEAN: does reactor.run() install its own signal handlers
     ResetsResult,  \* TRUE = "asRequired": run() starts from unset result fields;
                    \* FALSE = the code before 52cf306: _success/_failure survive from the previous run
+    RunBound,      \* TRUE = "asRequired": the callbacks run() puts on f's Deferred belong to that run() call - when the
+                   \* Deferred of an EARLIER run fires during a later run of the same Spinner nothing happens;
+                   \* FALSE = "asCoded": they act on whatever run is in progress (its result becomes that run's)
     LateIgnored    \* TRUE = "asRequired": once the run is over (timed out or reactor stopped) nothing that
                    \* still fires in the same reactor iteration changes its result;
                    \* FALSE = "asCoded": a stop request does not end the run for _got_success /
@@ -57,8 +60,13 @@ MaxAt  == 8
 \*   busyAt, busyDt  a slow callback: a delayed call due busyAt after the start that keeps the reactor thread
 \*          busy for busyDt time units (NoStop: none), so that everything due meanwhile is fired back to back,
 \*          in time order, in ONE reactor iteration - also what is due after the call that crashed the reactor
+\*   early  reactor.stop() is called by a startup trigger registered on the reactor BEFORE run() was called: it
+\*          runs when the reactor starts, strictly before run()'s own trigger that calls f
+\*   fireOld  (second run) f also fires, after this delay, the Deferred that the FIRST run's f returned and
+\*          that is still pending (NoStop: does not)
+\*   newSp  (second run) the run is made with a NEW Spinner on the same reactor
 NoScen == [k |-> "none", d |-> 0, v |-> "-", T |-> 0, extra |-> {}, sel |-> 0, stopAt |-> NoStop, reenter |-> FALSE,
-           busyAt |-> NoStop, busyDt |-> 0]
+           busyAt |-> NoStop, busyDt |-> 0, early |-> FALSE, fireOld |-> NoStop, newSp |-> FALSE]
 
 Sig == {"INT", "TERM", "CHLD"}
 
@@ -93,11 +101,14 @@ VARIABLES
     inner,      \* what the re-entrant call from inside f raised ("-" if f made none)
     fired,      \* labels of the delayed calls fired during the current run
     left,       \* history: what was pending in the reactor when reactor.run() came back
+    oldD,       \* the Deferred an earlier run's f returned: "none" or "pending" (never fired; it still carries the
+                \* callbacks that run() put on it) or "fired"
+    oldSpin,    \* _spinning of the Spinner object used before, when the current run uses a new one
     entry,      \* history: per run, [junk0, sigs0, stop0] when run() was called
     hist        \* history: per finished run() call, the observation record (see Obs); exported
 
 vars == <<scn, clr, inst, run, pc, now, calls, batch, running, readers, stopIs, sigs, success, failure,
-          spinning, junk, toCall, inRun, saved, out, inner, fired, left, entry, hist>>
+          spinning, junk, toCall, inRun, saved, out, inner, fired, left, oldD, oldSpin, entry, hist>>
 
 NoSaved == [sigs |-> [s \in Sig |-> "none"], stop |-> "none"]
 
@@ -115,6 +126,7 @@ FnTime(s) == CASE s.k \in {"ret", "raise", "dnowok", "dnowerr"} -> 0
 FnOut(s) == IF s.k \in {"ret", "dnowok", "dfire"} THEN R("value", s.v) ELSE R("exception", s.v)
 First(s) == Min({FnTime(s), s.T, s.stopAt})
 AllowedRun(s) ==
+    IF s.early THEN {NoResR} ELSE    \* stopped before f was even called: strictly first, not a tie
     {FnOut(s) : x \in IF FnTime(s) = First(s) THEN {1} ELSE {}}
     \cup {TimeoutR : x \in IF s.T = First(s) THEN {1} ELSE {}}
     \cup {NoResR : x \in IF s.stopAt = First(s) /\ s.stopAt # NoStop THEN {1} ELSE {}}
@@ -130,6 +142,7 @@ Init ==
     /\ running = FALSE /\ readers = {} /\ stopIs = "orig" /\ sigs = [s \in Sig |-> "orig"]
     /\ success = UnsetR /\ failure = UnsetR /\ spinning = FALSE /\ junk = {} /\ toCall = "none"
     /\ inRun = FALSE /\ saved = NoSaved /\ out = UnsetR /\ inner = "-" /\ fired = {} /\ left = {}
+    /\ oldD = "none" /\ oldSpin = FALSE
     /\ entry = <<>> /\ hist = <<>>
 
 \* the two guards at the top of run(): the not_reentrant decorator, then the stale junk test
@@ -155,35 +168,43 @@ Enter ==
             /\ out' = R(g, "-") /\ inner' = "-" /\ fired' = {} /\ left' = {}
             /\ hist' = Append(hist, Obs(R(g, "-"), junk, {}, junk, "-", {}))
             /\ UNCHANGED <<inRun, success, failure>>
-    /\ UNCHANGED <<scn, clr, inst, run, now, calls, batch, running, readers, stopIs, sigs, spinning, junk,
+    /\ UNCHANGED <<oldD, oldSpin, scn, clr, inst, run, now, calls, batch, running, readers, stopIs, sigs, spinning, junk,
                    toCall, saved>>
 
 SaveSignals ==
     /\ pc = "entered" /\ pc' = "saved"
     /\ saved' = [saved EXCEPT !.sigs = sigs]
-    /\ UNCHANGED <<scn, clr, inst, run, now, calls, batch, running, readers, stopIs, sigs, success, failure,
+    /\ UNCHANGED <<oldD, oldSpin, scn, clr, inst, run, now, calls, batch, running, readers, stopIs, sigs, success, failure,
                    spinning, junk, toCall, inRun, out, inner, fired, left, entry, hist>>
 
 ScheduleTimeout ==
     /\ pc = "saved" /\ pc' = "scheduled"
     /\ calls' = Append(calls, [run |-> run, lab |-> "timeout", at |-> now + Cur.T, what |-> "timeout"])
     /\ toCall' = "pending"
-    /\ UNCHANGED <<scn, clr, inst, run, now, batch, running, readers, stopIs, sigs, success, failure,
+    /\ UNCHANGED <<oldD, oldSpin, scn, clr, inst, run, now, batch, running, readers, stopIs, sigs, success, failure,
                    spinning, junk, inRun, saved, out, inner, fired, left, entry, hist>>
 
 PatchStop ==
     /\ pc = "scheduled" /\ pc' = "patched"
     /\ saved' = [saved EXCEPT !.stop = stopIs]
     /\ stopIs' = "fake"
-    /\ UNCHANGED <<scn, clr, inst, run, now, calls, batch, running, readers, sigs, success, failure,
+    /\ UNCHANGED <<oldD, oldSpin, scn, clr, inst, run, now, calls, batch, running, readers, sigs, success, failure,
                    spinning, junk, toCall, inRun, out, inner, fired, left, entry, hist>>
 
 \* callWhenRunning(run_function); _spinning = True; reactor.run() starts (and installs its handlers)
 Start ==
-    /\ pc = "patched" /\ pc' = "starting"
+    /\ pc = "patched" /\ pc' = IF Cur.early THEN "trigger" ELSE "starting"
     /\ spinning' = TRUE /\ running' = TRUE
     /\ sigs' = IF inst THEN [s \in Sig |-> "reactor"] ELSE sigs
-    /\ UNCHANGED <<scn, clr, inst, run, now, calls, batch, readers, stopIs, success, failure,
+    /\ UNCHANGED <<oldD, oldSpin, scn, clr, inst, run, now, calls, batch, readers, stopIs, success, failure,
+                   junk, toCall, inRun, saved, out, inner, fired, left, entry, hist>>
+
+\* a startup trigger registered before run(): reactor.stop() - the patched one, i.e. _fake_stop
+EarlyStop ==
+    /\ pc = "trigger" /\ pc' = "starting"
+    /\ running' = FALSE
+    /\ spinning' = IF LateIgnored THEN FALSE ELSE spinning
+    /\ UNCHANGED <<oldD, oldSpin, scn, clr, inst, run, now, calls, batch, readers, stopIs, sigs, success, failure,
                    junk, toCall, inRun, saved, out, inner, fired, left, entry, hist>>
 
 DropTimeout(q) == SelectSeq(q, LAMBDA c : c.lab # "timeout")
@@ -200,8 +221,11 @@ RunFunction ==
                   ELSE Append(c1, [run |-> run, lab |-> "busy", at |-> now + s.busyAt, what |-> "busy"])
            c2 == IF s.stopAt = NoStop THEN c1b
                  ELSE Append(c1b, [run |-> run, lab |-> "stop", at |-> now + s.stopAt, what |-> "stop"])
+           c2o == IF s.fireOld # NoStop /\ oldD = "pending"
+                  THEN Append(c2, [run |-> run, lab |-> "fireold", at |-> now + s.fireOld, what |-> "old"]) ELSE c2
            sync == s.k \in {"ret", "raise", "dnowok", "dnowerr"}
-           can  == toCall = "pending"
+           over == LateIgnored /\ ~spinning      \* the run was stopped before f was called: its result is ignored
+           can  == toCall = "pending" /\ ~over
        IN /\ readers' = readers \cup {<<run, "sel">> : x \in 1..s.sel}
           /\ inner' = IF s.reenter THEN (LET g == Guard(inRun, junk) IN IF g = "enter" THEN "entered" ELSE g)
                       ELSE "-"
@@ -209,16 +233,16 @@ RunFunction ==
              THEN \* the Deferred has a result at once: _got_success/_got_failure cancel the timeout and
                   \* store it, _stop_reactor crashes the reactor
                   /\ toCall' = IF can THEN "cancelled" ELSE toCall
-                  /\ calls' = IF can THEN DropTimeout(c2) ELSE c2
+                  /\ calls' = IF can THEN DropTimeout(c2o) ELSE c2o
                   /\ success' = IF can /\ FnOut(s).cls = "value" THEN FnOut(s) ELSE success
                   /\ failure' = IF can /\ FnOut(s).cls = "exception" THEN FnOut(s) ELSE failure
                   /\ running' = IF spinning THEN FALSE ELSE running
                   /\ spinning' = FALSE
-             ELSE /\ calls' = IF s.k = "never" THEN c2
-                              ELSE Append(c2, [run |-> run, lab |-> "fire", at |-> now + s.d,
+             ELSE /\ calls' = IF s.k = "never" THEN c2o
+                              ELSE Append(c2o, [run |-> run, lab |-> "fire", at |-> now + s.d,
                                                what |-> IF s.k = "dfire" THEN "ok" ELSE "err"])
                   /\ UNCHANGED <<toCall, success, failure, running, spinning>>
-    /\ UNCHANGED <<scn, clr, inst, run, now, batch, stopIs, sigs, junk, inRun, saved, out, fired, left,
+    /\ UNCHANGED <<oldD, oldSpin, scn, clr, inst, run, now, batch, stopIs, sigs, junk, inRun, saved, out, fired, left,
                    entry, hist>>
 
 \* the reactor sleeps until the earliest delayed call and collects everything due at that instant
@@ -228,7 +252,7 @@ Tick ==
        /\ now' = t
        /\ batch' = SelectSeq(calls, LAMBDA c : c.at = t)
        /\ calls' = SelectSeq(calls, LAMBDA c : c.at # t)
-    /\ UNCHANGED <<scn, clr, inst, run, pc, running, readers, stopIs, sigs, success, failure, spinning, junk,
+    /\ UNCHANGED <<oldD, oldSpin, scn, clr, inst, run, pc, running, readers, stopIs, sigs, success, failure, spinning, junk,
                    toCall, inRun, saved, out, inner, fired, left, entry, hist>>
 
 \* calls of q due in lo..hi, in firing order (time, then insertion)
@@ -264,6 +288,23 @@ FireNext ==
                     /\ spinning' = IF LateIgnored THEN FALSE ELSE spinning
                     /\ batch' = rest
                     /\ UNCHANGED <<calls, success, failure, toCall, now>>
+               [] c.what = "old" ->           \* the Deferred of the previous run fires: the callbacks put on it then
+                    IF Cur.newSp
+                    THEN \* ... belong to the previous Spinner object: its _stop_reactor crashes only if it still spins
+                         /\ running' = IF oldSpin THEN FALSE ELSE running
+                         /\ batch' = rest
+                         /\ UNCHANGED <<calls, success, failure, spinning, toCall, now>>
+                    ELSE IF RunBound
+                    THEN /\ batch' = rest
+                         /\ UNCHANGED <<calls, success, failure, spinning, toCall, running, now>>
+                    ELSE LET can == toCall = "pending" /\ ~over IN   \* asCoded: taken for this run's result
+                         /\ toCall' = IF can THEN "cancelled" ELSE toCall
+                         /\ success' = IF can THEN R("value", "vold") ELSE success
+                         /\ calls' = IF can THEN DropTimeout(calls) ELSE calls
+                         /\ batch' = IF can THEN DropTimeout(rest) ELSE rest
+                         /\ running' = IF spinning THEN FALSE ELSE running
+                         /\ spinning' = FALSE
+                         /\ UNCHANGED <<failure, now>>
                [] c.what = "busy" ->          \* a slow callback: time passes, more calls fall due in this iteration
                     /\ now' = now + Cur.busyDt
                     /\ batch' = rest \o DueIn(calls, now + 1, now + Cur.busyDt)
@@ -272,6 +313,8 @@ FireNext ==
                [] OTHER ->
                     /\ batch' = rest
                     /\ UNCHANGED <<calls, success, failure, spinning, toCall, running, now>>
+    /\ oldD' = IF Head(batch).what = "old" THEN "fired" ELSE oldD
+    /\ oldSpin' = IF Head(batch).what = "old" THEN FALSE ELSE oldSpin
     /\ UNCHANGED <<scn, clr, inst, run, pc, readers, stopIs, sigs, junk, inRun, saved, out, inner, left,
                    entry, hist>>
 
@@ -280,14 +323,14 @@ LoopExit ==
     /\ pc = "spin" /\ batch = <<>> /\ ~running
     /\ pc' = "ranout"
     /\ left' = {<<calls[i].run, calls[i].lab>> : i \in DOMAIN calls} \cup readers
-    /\ UNCHANGED <<scn, clr, inst, run, now, calls, batch, running, readers, stopIs, sigs, success, failure,
+    /\ UNCHANGED <<oldD, oldSpin, scn, clr, inst, run, now, calls, batch, running, readers, stopIs, sigs, success, failure,
                    spinning, junk, toCall, inRun, saved, out, inner, fired, entry, hist>>
 
 \* nothing left to fire and nobody stopped the reactor: a real reactor would block for ever
 Hang ==
     /\ pc = "spin" /\ batch = <<>> /\ running /\ calls = <<>>
     /\ pc' = "stuck"
-    /\ UNCHANGED <<scn, clr, inst, run, now, calls, batch, running, readers, stopIs, sigs, success, failure,
+    /\ UNCHANGED <<oldD, oldSpin, scn, clr, inst, run, now, calls, batch, running, readers, stopIs, sigs, success, failure,
                    spinning, junk, toCall, inRun, saved, out, inner, fired, left, entry, hist>>
 
 \* finally: reactor.stop = real_stop; _restore_signals()
@@ -296,13 +339,13 @@ Exit ==
     /\ stopIs' = saved.stop
     /\ sigs' = saved.sigs
     /\ saved' = NoSaved
-    /\ UNCHANGED <<scn, clr, inst, run, now, calls, batch, running, readers, success, failure,
+    /\ UNCHANGED <<oldD, oldSpin, scn, clr, inst, run, now, calls, batch, running, readers, success, failure,
                    spinning, junk, toCall, inRun, out, inner, fired, left, entry, hist>>
 
 GetResult ==
     /\ pc = "exited" /\ pc' = "gotresult"
     /\ out' = IF failure # UnsetR THEN failure ELSE IF success # UnsetR THEN success ELSE NoResR
-    /\ UNCHANGED <<scn, clr, inst, run, now, calls, batch, running, readers, stopIs, sigs, success, failure,
+    /\ UNCHANGED <<oldD, oldSpin, scn, clr, inst, run, now, calls, batch, running, readers, stopIs, sigs, success, failure,
                    spinning, junk, toCall, inRun, saved, inner, fired, left, entry, hist>>
 
 \* finally: _clean() - cancel every delayed call, removeAll(), remember them as junk; then the
@@ -314,30 +357,39 @@ Clean ==
        /\ hist' = Append(hist, Obs(out, entry[run].junk0, left, j, inner, fired))
     /\ calls' = <<>> /\ readers' = {}
     /\ inRun' = FALSE
-    /\ UNCHANGED <<scn, clr, inst, run, now, batch, running, stopIs, sigs, success, failure,
+    /\ UNCHANGED <<oldD, oldSpin, scn, clr, inst, run, now, batch, running, stopIs, sigs, success, failure,
                    spinning, toCall, saved, out, inner, fired, left, entry>>
 
 ClearJunk ==
     /\ pc = "returned" /\ run < Len(scn) /\ clr
     /\ pc' = "between"
     /\ junk' = {}
-    /\ UNCHANGED <<scn, clr, inst, run, now, calls, batch, running, readers, stopIs, sigs, success, failure,
+    /\ UNCHANGED <<oldD, oldSpin, scn, clr, inst, run, now, calls, batch, running, readers, stopIs, sigs, success, failure,
                    spinning, toCall, inRun, saved, out, inner, fired, left, entry, hist>>
 
+\* between the runs; a new Spinner object starts from its constructor's state (the not_reentrant flag and the
+\* reactor are shared)
 NextRun ==
     /\ run < Len(scn)
     /\ (pc = "between" \/ (pc = "returned" /\ ~clr))
     /\ pc' = "idle" /\ run' = run + 1
-    /\ UNCHANGED <<scn, clr, inst, now, calls, batch, running, readers, stopIs, sigs, success, failure,
-                   spinning, junk, toCall, inRun, saved, out, inner, fired, left, entry, hist>>
+    /\ oldD' = IF Cur.k \in {"dfire", "dfail", "never"} /\ "fire" \notin fired /\ hist[run].out \notin {StaleR, ReentryR}
+              THEN "pending" ELSE "none"
+    /\ oldSpin' = spinning
+    /\ IF scn[run + 1].newSp
+       THEN /\ success' = UnsetR /\ failure' = UnsetR /\ spinning' = FALSE /\ junk' = {} /\ toCall' = "none"
+            /\ saved' = NoSaved
+       ELSE UNCHANGED <<success, failure, spinning, junk, toCall, saved>>
+    /\ UNCHANGED <<scn, clr, inst, now, calls, batch, running, readers, stopIs, sigs,
+                   inRun, out, inner, fired, left, entry, hist>>
 
 Finish ==
     /\ pc = "returned" /\ run = Len(scn)
     /\ pc' = "done"
-    /\ UNCHANGED <<scn, clr, inst, run, now, calls, batch, running, readers, stopIs, sigs, success, failure,
+    /\ UNCHANGED <<oldD, oldSpin, scn, clr, inst, run, now, calls, batch, running, readers, stopIs, sigs, success, failure,
                    spinning, junk, toCall, inRun, saved, out, inner, fired, left, entry, hist>>
 
-Next == Enter \/ SaveSignals \/ ScheduleTimeout \/ PatchStop \/ Start \/ RunFunction \/ Tick \/ FireNext
+Next == Enter \/ SaveSignals \/ ScheduleTimeout \/ PatchStop \/ Start \/ EarlyStop \/ RunFunction \/ Tick \/ FireNext
         \/ LoopExit \/ Hang \/ Exit \/ GetResult \/ Clean \/ ClearJunk \/ NextRun \/ Finish
 
 Spec == Init /\ [][Next]_vars
@@ -374,6 +426,9 @@ SecondRun ==
 
 \* run() always comes back
 NeverStuck == pc # "stuck"
+
+\* ... and leaves the Spinner not spinning (whatever fires later cannot stop somebody else's reactor run)
+SpinnerIdle == Returned => ~spinning
 
 -----------------------------------------------------------------------------
 Terminal == pc = "done"
